@@ -83,6 +83,8 @@ C01_CORE = [
     ({"A": ["K", "M"], "B": ["K"], "C": ["M"], "Z": ["M"]}, "Z[m] = take(A[k, m], B[k], C[m], 2)", None, ["K", "M"]),
     ({"A": [], "B": ["M"], "Z": ["M"]}, "Z[m] = A[] * B[m]", None, None),
     ({"A": ["J", "K", "M"], "B": ["J", "K"], "Z": ["M"]}, "Z[m] = A[j, k, m] * B[j, k]", {"A": ["M", "J", "K"]}, ["J", "M", "K"]),
+    # take as a summand (known finding KF-TAKE-SUMMAND: kept in the core so that the finding is re-derived on every run)
+    ({"A": ["N"], "B": ["M"], "C": ["M"], "D": ["N"], "Z": []}, "Z[] = A[n] * B[m] + take(C[m], D[n], 1)", None, ["N", "M"]),
 ]
 
 
@@ -207,10 +209,10 @@ def gen_occ(rng):
         holders = [t for t, r in decl.items() if v in r and t != "Z"]
         k = rng.choice([0, 1, 1, 2])
         st = []
-        lead = rng.choice(holders)
         if k and rng.random() < 0.4:
             st.append("uniform_shape(%d)" % rng.choice([2, 3]))
-        st += ["uniform_occupancy(%s.%d)" % (lead, rng.choice([1, 2, 3])) for _ in range(k)]
+        # the leader is chosen per level: different levels of one rank may follow different tensors
+        st += ["uniform_occupancy(%s.%d)" % (rng.choice(holders), rng.choice([1, 2, 3])) for _ in range(k)]
         stacks[V] = st
     lo = interleave(rng, [levels(v.upper(), len(stacks[v.upper()])) for v in vs])
     y = mk_yaml(updecl(decl), [expr], part={"Z": stacks}, lo={"Z": lo})
@@ -507,4 +509,43 @@ def accel_specs(stripped=True, names=None):
         if stripped:
             y = strip_sections(y)
         out.append({"yaml": y, "configs": [cfg], "family": "accel-" + n, "key": n, "cap": 30})
+    return out
+
+
+def conv_systematic(tier):
+    """1-D affine accesses O[q] = I[a*q + b*s] * F[s], systematically: coefficient pairs x every loop order (unpartitioned: incl. the
+    input's own rank W with the other projected) x partitioned output rank with W following x the legal level orders."""
+    q = tier == "quick"
+    pairs = [(1, 1), (2, 1), (1, 2), (2, 2), (2, 4), (4, 2), (3, 1), (1, 3)] if q else [(a, b) for a in (1, 2, 3, 4) for b in (1, 2, 3, 4)]
+    out = []
+
+    def t(c, v):
+        return v if c == 1 else "%d*%s" % (c, v)
+
+    for a, b in pairs:
+        expr = "O[q] = I[%s + %s] * F[s]" % (t(a, "q"), t(b, "s"))
+        decl = {"I": ["W"], "F": ["S"], "O": ["Q"]}
+        cfgs = [{"Q": Q, "S": S, "W": a * (Q - 1) + b * (S - 1) + 1} for Q, S in ([(3, 2), (4, 3)] if q else [(3, 2), (4, 3), (5, 3)])]
+        for lo in (["Q", "S"], ["S", "Q"], ["W", "Q"], ["W", "S"], ["Q", "W"], ["S", "W"], None):
+            y = mk_yaml(decl, [expr], lo={"O": lo} if lo else None)
+            out.append({"yaml": y, "configs": cfgs, "family": "affine-conv1", "key": y, "coeffs": (a, b)})
+        for pstr, fam in (("uniform_shape(2)", "conv-us"), ("nway_shape(2)", "conv-nw")) + ((() if q else (("uniform_shape(3)", "conv-us"),))):
+            for lo in (["Q1", "Q0", "S"], ["S", "Q1", "Q0"], ["Q1", "S", "Q0"], ["Q1", "W0", "Q0"]):
+                y = mk_yaml(decl, [expr], part={"O": {"Q": [pstr], "W": ["follow(Q)"]}}, lo={"O": lo})
+                cf = [{"Q": Q, "S": S, "W": a * (Q - 1) + b * (S - 1) + 1} for Q, S in ([(4, 2), (5, 3)] if q else [(3, 2), (4, 2), (5, 3)])]
+                out.append({"yaml": y, "configs": cf, "family": fam, "key": y, "coeffs": (a, b), "lo": lo})
+    return out
+
+
+def occ_core():
+    """Fixed core for occupancy partitioning: two levels with the same and with different leaders, alone and beneath a shape split."""
+    out = []
+    decl = {"A": ["K", "M"], "B": ["K", "N"], "Z": ["M", "N"]}
+    expr = "Z[m, n] = A[k, m] * B[k, n]"
+    for st in (["uniform_occupancy(A.3)", "uniform_occupancy(B.2)"], ["uniform_occupancy(B.3)", "uniform_occupancy(A.2)"], ["uniform_occupancy(A.2)", "uniform_occupancy(A.1)"],
+               ["uniform_shape(4)", "uniform_occupancy(B.2)", "uniform_occupancy(A.1)"], ["uniform_shape(4)", "uniform_occupancy(A.3)", "uniform_occupancy(B.2)"]):
+        lv = levels("K", len(st))
+        for lo in (lv[:1] + ["M", "N"] + lv[1:], ["M"] + lv[:-1] + ["N"] + lv[-1:], lv + ["M", "N"]):
+            y = mk_yaml(decl, [expr], part={"Z": {"K": st}}, lo={"Z": lo})
+            out.append({"yaml": y, "configs": [{"K": 5, "M": 2, "N": 2}], "family": "occupancy-core", "key": y, "cap": 40})
     return out
